@@ -89,7 +89,10 @@ func (fs *FS) refineNotExist(name string, err error) error {
 	}
 	for dir := path.Dir(name); dir != "."; dir = path.Dir(dir) {
 		results, getErr := getFileRecords(fs.store, []string{dir})
-		if getErr != nil || len(results) != 1 {
+		if getErr != nil {
+			return getErr
+		}
+		if len(results) != 1 {
 			return err
 		}
 		switch {
@@ -99,7 +102,8 @@ func (fs *FS) refineNotExist(name string, err error) error {
 			}
 			return err
 		case !errors.Is(results[0].Err, hackpadfs.ErrNotExist):
-			return err
+			// the store failed: that is not "does not exist"
+			return results[0].Err
 		}
 	}
 	return err
